@@ -63,6 +63,8 @@ def gamma(L):
                 B[k] = None
         if B['total'] == -1:
             B['total'] = B['meta_off'] + B['item_off'] + 8 + 4096
+        from vf import images as _im
+        B['item_len'] = _im.tok(B['item_len']) & 0xffffffff
     elif fmt == 'vmdk':
         f = B['footer']
         B['footer'] = dict(FOOTER_PERT[f['pert']]) if f['present'] else None
